@@ -524,18 +524,15 @@ impl DrawState {
         // Here we calculate the terminal vertical real estate that the state requires
         let full_height = self.visual_line_count(.., term_width);
 
+        // If we align to the bottom and the new height is less than before, the lines that are not
+        // used by the new content are left blank. They go between the text lines (which join the
+        // output above the bars for good) and the bars, so that they stay part of the region that
+        // is cleared on the next draw.
         let shift = match self.alignment {
-            // If we align to the bottom and the new height is less than before, clear the lines
-            // that are not used by the new content.
-            MultiProgressAlignment::Bottom if full_height < *bar_count => {
-                let shift = *bar_count - full_height;
-                for _ in 0..shift.as_usize() {
-                    term.write_line("")?;
-                }
-                shift
-            }
+            MultiProgressAlignment::Bottom if full_height < *bar_count => *bar_count - full_height,
             _ => VisualLines::default(),
         };
+        let mut padding = shift.as_usize();
 
         // Accumulate the displayed height in here. This differs from `full_height` in that it will
         // accurately reflect the number of lines that have been displayed on the terminal, if the
@@ -561,6 +558,12 @@ impl DrawState {
                 term.write_line("")?;
             }
 
+            if matches!(line, LineType::Bar(_)) {
+                for _ in 0..std::mem::take(&mut padding) {
+                    term.write_line("")?;
+                }
+            }
+
             term.write_str(line.as_ref())?;
 
             if idx + 1 == self.lines.len() {
@@ -569,6 +572,11 @@ impl DrawState {
                 let last_line_filler = line_height.as_usize() * term_width - line.console_width();
                 term.write_str(&" ".repeat(last_line_filler))?;
             }
+        }
+
+        // No bar line was drawn: the blank lines follow the text lines
+        for _ in 0..padding {
+            term.write_line("")?;
         }
 
         term.flush()?;
